@@ -594,6 +594,7 @@ func (r *collection) addService(service any, lifetime Lifetime, opts ...AddOptio
 				resultFields:    descriptor.resultFields,
 				isParamObject:   descriptor.isParamObject,
 				paramFields:     descriptor.paramFields,
+				resultField:     field.Name,
 			}
 
 			fieldDescriptors = append(fieldDescriptors, fieldDescriptor)
@@ -730,6 +731,8 @@ func (r *collection) registerAll(descriptors []*Descriptor, operation string) er
 	}
 
 	for _, descriptor := range descriptors {
+		descriptor.outputs = descriptors
+
 		if err := r.registerDescriptor(descriptor); err != nil {
 			return &RegistrationError{
 				ServiceType: descriptor.Type,
